@@ -1,6 +1,6 @@
 #!/bin/bash
 # stops a running mutation sweep (driver + lane processes); development aid
-for p in $(pgrep -f "^python3 mutsweep.py"); do kill "$p"; done
+for p in $(pgrep -f "python3 mutsweep.py --"); do kill "$p"; done
 sleep 1
 for p in $(pgrep -f "^/(var/)?tmp/v?mut[a-z]*/lane[0-9]+/verif"); do kill -9 "$p"; done
 for p in $(pgrep -f "^bash -c ulimit.*tmp/v?mut"); do kill -9 "$p"; done
